@@ -2,6 +2,8 @@ import PromModel.Tsdb.Snapshot
 import PromModel.Suites.SnapSuite
 import PromProofs.Snapshot
 import PromProofs.SnapshotClean
+import PromModel.Suites.MsnapSuite
+import PromProofs.SnapshotMm
 /-
   C23 — restart from a memory snapshot equals restart from the WAL.
 
@@ -158,6 +160,99 @@ theorem tail_nonpositive_lost_witness :
     (exampleDisk.reopenWithSnapshot (some 0)).db.query (-1000) 1000 ≠ exampleDisk.reopenPlain.db.query (-1000) 1000 ∧
     (exampleDisk.reopenWithSnapshot none).db.query (-1000) 1000 = exampleDisk.reopenPlain.db.query (-1000) 1000 := by
   decide
+
+/-! ### Series without an in-order head chunk: m-mapped chunks and the WBL (layout model, SnapshotMm.lean)
+
+  The snapshot holds, per series, only the in-order head chunk. Everything else a series owns comes
+  back through two other doors: the m-mapped chunks of `chunks_head/` are attached by
+  `loadMmappedChunks` to the series that `loadChunkSnapshot` REGISTERED in its ref ↦ series map, and
+  the out-of-order head chunk is rebuilt by the WBL replay (a marker clears it when the chunk it
+  announces is on disk). `reg` below is the registration rule; the code as found is `regAll`. -/
+section Layout
+open Prom.Db.Mm
+
+/-- For every history of admitted in-order appends, out-of-order inserts and sample-less series
+    creations, every out-of-order chunk capacity and every in-order cut rule: a clean shutdown with
+    snapshot followed by a start from it rebuilds every series of the head with exactly its chunk
+    layout — m-mapped in-order chunks, head chunk, m-mapped out-of-order chunks, out-of-order head
+    chunk — and the WBL replay writes no chunk a second time. -/
+theorem mm_clean_restart_restores_layout (cap : Nat) (cut : Nat → List Smp → Smp → Bool) (ops : List MOp) :
+    ((Live.init cap cut).run ops).close.restart regAll = ((Live.init cap cut).run ops).list := by
+  have h := inv_run ops _ (inv_init cap cut)
+  rw [restart_spec _ h]
+  simp [regAll, Live.list]
+
+/-- The registration rule is exactly what decides: for ANY rule, the start from the snapshot rebuilds
+    the live head iff every series it leaves out of the map owns no m-mapped chunk (in-order or
+    out-of-order). A rule that skips series without head chunk (`regIfHead`) therefore loses the
+    m-mapped out-of-order chunks of every series that only ever received out-of-order samples. -/
+theorem mm_restart_eq_live_iff (cap : Nat) (cut : Nat → List Smp → Smp → Bool) (ops : List MOp)
+    (reg : Nat × List Smp → Bool) :
+    let L := (Live.init cap cut).run ops
+    L.close.restart reg = L.list ↔
+      ∀ r ∈ L.refs, reg (r, (L.series r).head) = true ∨ ((L.series r).mm = [] ∧ (L.series r).oooMm = []) := by
+  intro L
+  have h : Inv L := inv_run ops _ (inv_init cap cut)
+  rw [restart_spec L h, Live.list]
+  constructor
+  · intro heq r hr
+    have := (List.map_inj_left.mp heq) r hr
+    by_cases hreg : reg (r, (L.series r).head) = true
+    · exact Or.inl hreg
+    · right
+      simp only [hreg] at this
+      cases hs : L.series r with
+      | mk ref mm head oooMm oooHead =>
+        rw [hs] at this
+        simp at this
+        exact ⟨this.1, this.2⟩
+  · intro hall
+    apply List.map_congr_left
+    intro r hr
+    cases hall r hr with
+    | inl hreg => simp [hreg]
+    | inr hnil =>
+      by_cases hreg : reg (r, (L.series r).head) = true
+      · simp [hreg]
+      · simp only [hreg]
+        cases hs : L.series r with
+        | mk ref mm head oooMm oooHead =>
+          rw [hs] at hnil
+          simp at hnil
+          simp [hnil.1, hnil.2]
+
+/-- The samples of every series survive (corollary in the form the judge of suite `msnap` observes:
+    what a query merges). -/
+theorem mm_clean_restart_keeps_samples (cap : Nat) (cut : Nat → List Smp → Smp → Bool) (ops : List MOp) :
+    (((Live.init cap cut).run ops).close.restart regAll).map MSeries.samples
+      = ((Live.init cap cut).run ops).list.map MSeries.samples := by
+  rw [mm_clean_restart_restores_layout]
+
+/-- A concrete head: capacity 2, in-order chunks of two samples; series 0 in order (one m-mapped chunk),
+    series 1 out of order only (five samples: two m-mapped out-of-order chunks, no head chunk),
+    series 2 created by a rolled-back append, series 3 both kinds. -/
+def exampleHead : Live :=
+  (Live.init 2 (fun _ h _ => decide (2 ≤ h.length))).run
+    [.inorder 0 ⟨100, 1⟩, .inorder 0 ⟨101, 2⟩, .inorder 0 ⟨102, 3⟩,
+     .ooo 1 ⟨50, 4⟩, .ooo 1 ⟨40, 5⟩, .ooo 1 ⟨45, 6⟩, .ooo 1 ⟨41, 7⟩, .ooo 1 ⟨60, 8⟩,
+     .create 2, .inorder 3 ⟨103, 9⟩, .ooo 3 ⟨70, 10⟩]
+
+example : exampleHead.refs = [0, 1, 2, 3] ∧ (exampleHead.series 1).head = [] ∧
+    ((exampleHead.series 1).oooMm.map (·.smps.length)) = [2, 2] ∧ (exampleHead.series 1).oooHead.length = 1 ∧
+    (exampleHead.series 0).mm.length = 1 ∧ exampleHead.wbl.length = 10 := by
+  decide
+
+/-- The registration rule that skips series without head chunk loses data on `exampleHead` (the four
+    m-mapped out-of-order samples of series 1; its out-of-order head chunk survives through the WBL),
+    the rule of the code as found does not. -/
+theorem mm_headless_unregistered_loses_chunks_witness :
+    (exampleHead.close.restart regIfHead).map MSeries.samples ≠ exampleHead.list.map MSeries.samples ∧
+    ((exampleHead.close.restart regIfHead).map MSeries.samples).map List.length = [3, 1, 0, 2] ∧
+    (exampleHead.list.map MSeries.samples).map List.length = [3, 5, 0, 2] ∧
+    exampleHead.close.restart regAll = exampleHead.list := by
+  decide
+
+end Layout
 
 /-- The full statement (DESIGN §7 C23): for EVERY history of the model — any interleaving of
     transactions, deletions, head compactions, restarts, and out-of-order ingestion — the state at a
